@@ -384,19 +384,38 @@ Example C13_location_example :
 Proof. vm_compute. reflexivity. Qed.
 
 (* ------------------------------------------------------------------ *)
-(* Read/Seek on a blob reader of a range-capable registry = an in-memory reader
-   over the blob's bytes, for every script; a Range request "bytes=off-(size-1)" is
-   emitted exactly when the position changes to an offset inside the blob. *)
+(* Read/Seek on a blob reader of a range-capable registry = an in-memory reader over the
+   blob's bytes, for every script and every behaviour of the response bodies (chunking,
+   data together with io.EOF); a Range request "bytes=off-(size-1)" is emitted exactly when
+   the position changes to an offset inside the blob. *)
 Theorem C13_seek :
-  forall content os,
-    rsc_run content (rsc_open content (len content)) os = ref_run content (mkPos 0 false) os.
+  forall (modes : nat -> bmode) content os,
+    rsc_run modes content (rsc_open content (len content)) os
+    = ref_run modes content (mkPos 0 false 0) os.
 Proof. exact seek_refines. Qed.
 Print Assumptions C13_seek.
 
-(* non-vacuity *)
+(* ... and that reader returns, for EVERY body behaviour (short reads of any chunk size, the
+   last bytes with or before io.EOF, per body), a prefix of the bytes at the position, no
+   longer than the buffer, advances by exactly what it returned, and reports io.EOF only
+   at the end of the content *)
+Theorem C13_seek_read :
+  forall (modes : nat -> bmode) content k n k1 rq c eof,
+    s_closed k = false ->
+    ref_step modes content k (SRead n) = (k1, rq, SData c eof) ->
+    rq = [] /\ c = firstn (length c) (skipn (N.to_nat (s_off k)) content) /\
+    (len c <= n) /\ s_off k1 = s_off k + len c /\
+    (eof = true -> skipn (N.to_nat (s_off k1)) content = []).
+Proof. exact ref_read_spec. Qed.
+Print Assumptions C13_seek_read.
+
+(* non-vacuity: a body that delivers 3 bytes per call and the last ones together with EOF;
+   read to the very end, ask for the position, step back, re-read, seek to the same place *)
 Example C13_seek_example :
-  rsc_run (b "hello world") (rsc_open (b "hello world") 11)
-          [SRead 2; SSeek 6 SeekStart; SRead 100; SSeek (-1) SeekEnd; SRead 1; SSeek 0 SeekCurrent]
-  = [([], SBytes (b "he")); ([(6, 10)], SPos 6); ([], SBytes (b "world")); ([(10, 10)], SPos 10);
-     ([], SBytes (b "d")); ([], SPos 11)].
+  rsc_run (fun _ => mkBm 3 true) (b "hello world") (rsc_open (b "hello world") 11)
+          [SRead 2; SSeek 6 SeekStart; SRead 100; SRead 100; SSeek 0 SeekCurrent; SRead 1;
+           SSeek (-1) SeekCurrent; SRead 5; SSeek 11 SeekStart; SSeek 0 SeekEnd]
+  = [([], SData (b "he") false); ([(6, 10)], SPos 6); ([], SData (b "wor") false);
+     ([], SData (b "ld") true); ([], SPos 11); ([], SData [] true);
+     ([(10, 10)], SPos 10); ([], SData (b "d") true); ([], SPos 11); ([], SPos 11)].
 Proof. vm_compute. reflexivity. Qed.
